@@ -70,6 +70,7 @@ type Behaviour struct {
 	Status int
 	Hdrs   []KV
 	Body   string
+	Enc    string // "", "gzip", "br", "gzip-multi": how the origin encodes Body on the wire (Hdrs says Content-Encoding)
 }
 
 type HostScript struct {
@@ -394,6 +395,12 @@ func (p *performer) Do(req *http.Request) (*http.Response, error) {
 	for _, kv := range b.Hdrs {
 		h.Add(kv.K, kv.V)
 	}
+	if b.Enc != "" {
+		b.Body = encodeBody(b.Body, b.Enc)
+		if h.Get("Content-Length") != "" {
+			h.Set("Content-Length", strconv.Itoa(len(b.Body)))
+		}
+	}
 	cl := int64(len(b.Body))
 	if p.clFromHeader {
 		cl = -1
@@ -451,10 +458,17 @@ func rawRequest(addr string, r Req) (ClientObs, error) {
 	body, rerr := ioutil.ReadAll(resp.Body)
 	resp.Body.Close()
 	o := ClientObs{Status: resp.StatusCode, Hdrs: resp.Header, Body: string(body), Aborted: rerr != nil}
+	rawLen := len(body)
 	if cl := resp.Header.Get("Content-Length"); cl != "" && r.Method != "HEAD" && resp.StatusCode != 304 && resp.StatusCode != 204 && resp.StatusCode >= 200 {
-		if fmt.Sprint(len(body)) != cl {
+		if fmt.Sprint(rawLen) != cl {
 			o.Aborted = true
 		}
+	}
+	// what the client makes of the body: decoded as the response's Content-Encoding says
+	if dec, ok := decodeBody(o.Body, resp.Header.Get("Content-Encoding")); ok {
+		o.Body = dec
+	} else {
+		o.Body = "<undecodable " + resp.Header.Get("Content-Encoding") + ">"
 	}
 	o.Kind = classify(o, r.Method)
 	return o, nil
